@@ -44,6 +44,7 @@ class Ctx:
         self.analysed = {}
         self.notes = []
         self.advisories = []
+        self.extra = {}
         self.clause = None
 
     # -- recording -----------------------------------------------------
@@ -204,7 +205,7 @@ def run_property(prop, checker, meta, repo_root, tier, evidence_dir=None, quiet=
             "exhaustive": True,
             "checker_cmd": f"/venv/bin/python /verif/bsa/check.py --property {prop} --tier {tier}",
             "error": error,
-            "extra": meta.get("extra", {}),
+            "extra": dict(meta.get("extra", {}), **(ctx.extra if ctx else {})),
         },
         "assumptions": meta.get("assumptions", []),
         "wall_s": round(time.time() - t0, 3),
